@@ -35,7 +35,7 @@ CLAIMED = {
         "complete enumeration of the configuration product vs a pure oracle function",
         "The finite product of connect arguments x letter case x auto-create flags x storage mode x prior state x connection order is "
         "enumerated completely (quick: 2880 configurations, thorough: 32000; both the FakeSnow() and the fakesnow.patch() route) and each outcome compared with a pure function of the "
-        "configuration; exhaustive over that product, exploration beyond it.",
+        "configuration; a second complete product puts look-alike sibling databases/schemas (names differing at an underscore, prefixes) beside the requested ones; exhaustive over those products, exploration beyond them.",
         "Prior state is built through an option-less session with fully qualified DDL; 'database exists' means attached in the live instance.",
         "DESIGN.md §4 C14",
         "exploration",
@@ -68,8 +68,8 @@ CLAIMED = {
     ),
     "C13": (
         "Hypothesis-generated transactional histories over three connections vs committed-store + pending-set model",
-        "Statement-level interleavings of BEGIN/DML (execute and executemany)/failing statements/COMMIT/ROLLBACK (SQL and API)/close with an open transaction on three connections (context from connect arguments or from USE) with two "
-        "cursors each are generated (state-aware drawing keeps transactions overlapping) and every read is compared with a model of "
+        "Statement-level interleavings of BEGIN/DML (execute and executemany)/failing statements/COMMIT/ROLLBACK (SQL and API)/close with an open transaction on three connections (context from connect arguments or from USE) with three "
+        "cursors each (one opened and used on another thread) are generated (state-aware drawing keeps transactions overlapping) and every read is compared with a model of "
         "committed states and pending sets; exploration of statement-level interleavings (thread-level ones are C19's).",
         "Non-conflicting writes only; a reader inside a transaction may see any state committed since its BEGIN.",
         "DESIGN.md §4 C13",
